@@ -42,14 +42,16 @@ def num(v):
 
 
 class Volume:
-    """a parameter object (what an envelope subclass stores on its events); its value is a number"""
+    """a parameter object (what an envelope subclass stores on its events); its value is a number in another unit"""
 
     def __init__(self, level):
         self.level = level
 
 
 class VolumeEnvelope(ce.Envelope):
-    """an envelope whose parameters are objects: the documented hooks map between parameter and value"""
+    """an envelope whose parameters are objects and whose events store the curve shape under a name of their own: all
+    six documented hooks are overridden, and none is the identity (parameter: an object holding 4 x the value; curve shape:
+    the attribute `bend` holding 8 x the shape - powers of two, so the conversions are exact in binary floating point)"""
 
     def event_to_parameter(self, event):
         return event.volume
@@ -58,10 +60,39 @@ class VolumeEnvelope(ce.Envelope):
         event.volume = parameter
 
     def parameter_to_value(self, parameter):
-        return parameter.level
+        return parameter.level / 4
 
     def value_to_parameter(self, value):
-        return Volume(value)
+        return Volume(value * 4)
+
+    def event_to_curve_shape(self, event):
+        return event.bend / 8
+
+    def apply_curve_shape_on_event(self, event, curve_shape):
+        event.bend = curve_shape * 8
+
+
+class BoxDuration(cp.abc.Duration):
+    """a user-defined duration whose state is a nested mutable object, updated in place by the setter (a copy that is only
+    shallow shares it)"""
+
+    def __init__(self, tick_count):
+        self._box = [int(tick_count)]
+
+    @property
+    def beat_count(self):
+        return round(self._box[0] / TICK, 10)
+
+    @beat_count.setter
+    def beat_count(self, beat_count):
+        self._box[0] = round(float(beat_count) * TICK)
+
+
+def cdur(i, n, count):
+    """the duration of control point i of `count`: floats, every third one a ratio, every fourth one (counted from a start
+    that depends on the number of points, so that it is the first point in a quarter of the envelopes) a user-defined class"""
+    n = int(n)
+    return BoxDuration(n) if (i + count) % 4 == 0 else Fraction(n, TICK) if i % 3 == 1 else n / TICK
 
 
 def build(x):
@@ -70,15 +101,15 @@ def build(x):
     if kind == "E" and sum(int(p[0]) for p in x[1:]) % 4 == 1 and os.environ.get("VERIF_PLAIN_ENVELOPES") != "1":
         # every fourth plain envelope (decided by its length) is a subclass with parameter objects
         for i, p in enumerate(x[1:]):
-            c = ce.Chronon(Fraction(int(p[0]), TICK) if i % 3 == 1 else int(p[0]) / TICK)
-            c.volume = Volume(num(p[1]))
-            c.curve_shape = num(p[2])
+            c = ce.Chronon(cdur(i, p[0], len(x) - 1))
+            c.volume = Volume(num(p[1]) * 4)
+            c.bend = num(p[2]) * 8
             evs.append(c)
         return VolumeEnvelope(evs)
     if kind == "E":
         for i, p in enumerate(x[1:]):
             # control points with float durations and (every third one) ratio durations: an envelope of mixed duration classes
-            c = ce.Chronon(Fraction(int(p[0]), TICK) if i % 3 == 1 else int(p[0]) / TICK)
+            c = ce.Chronon(cdur(i, p[0], len(x) - 1))
             c.value = num(p[1])
             c.curve_shape = num(p[2])
             evs.append(c)
@@ -237,6 +268,8 @@ def build_tree(x):
 
 def build_tempo(x):
     if x[0] == "C":
+        if fl(x[1]) == 120:
+            return cp.WesternTempo(60, reference=2)       # 120 bpm written as 60 half notes per minute
         return cp.DirectTempo(fl(x[1]))
     if x[0] == "D":
         return cp.DirectTempo(fl(x[1][1]))
@@ -298,7 +331,15 @@ def _walk(e):
 def run_convert(case):
     tempo = build_tempo(case[1])
     conv = cc.TempoConverter(tempo)
-    env_before = snap(conv._beat_length_in_seconds_envelope)
+    if sum(map(ord, sx.show(case))) % 4 == 2:
+        # the caller goes on using its tempo object after the converter was made (a converter is made from the tempo as
+        # it is at that moment): every third such case edits it in place before the first conversion
+        if isinstance(tempo, cp.FlexTempo):
+            if len(tempo):
+                tempo[0].tempo = cp.DirectTempo(tempo[0].tempo.bpm + 30)
+        else:
+            tempo.bpm = tempo.bpm + 30
+    env_before = None
     tempo_before = tempo_snap(tempo)
     out = ["ok"]
     flags = []
@@ -306,6 +347,8 @@ def run_convert(case):
         src = build_tree_top(tx)
         before = full_snap(src)
         r = conv.convert(src)
+        if env_before is None:
+            env_before = snap(conv._beat_length_in_seconds_envelope)      # (not read before the first conversion)
         out.append(leaf_durs(r))
         if shape_of(r) != shape_of(src):
             flags.append("structure-changed")
@@ -313,7 +356,7 @@ def run_convert(case):
             flags.append("input-changed")
         if any(a is b for a, b in zip(_walk(r), _walk(src))):
             flags.append("shares-objects")
-    if snap(conv._beat_length_in_seconds_envelope) != env_before:
+    if env_before is not None and snap(conv._beat_length_in_seconds_envelope) != env_before:
         flags.append("converter-envelope-changed")
     if tempo_snap(tempo) != tempo_before:
         flags.append("tempo-argument-changed")
@@ -473,6 +516,9 @@ def run_metrize(case):
             tp = n.tempo
             if type(tp) is cp.DirectTempo:
                 tp.bpm = tp.bpm * 2
+                factor = None if factor is None else factor * 2
+            elif type(tp) is cp.WesternTempo:
+                tp.reference = tp.reference * 2          # the same number of a note value twice as long: twice as fast
                 factor = None if factor is None else factor * 2
             elif isinstance(tp, cp.FlexTempo):
                 factor = None           # below a trajectory the expectation is not a plain factor: not checked here
@@ -711,6 +757,17 @@ def run(case):
                 r = e.cut_out(T(op[1]), T(op[2]))
             elif op[0] == "cut_off":
                 r = e.cut_off(T(op[1]), T(op[2]))
+            elif op[0] == "squash_in":
+                # an envelope as the receiver of Consecution.squash_in: the new child is a control point of the receiver's kind
+                new = ce.Chronon(T(op[2]))
+                e.apply_parameter_on_event(new, e.value_to_parameter(num(op[3])))
+                e.apply_curve_shape_on_event(new, 0)
+                r = e.squash_in(T(op[1]), new)
+                try:
+                    out = ["ok", snap(r)]
+                except Exception as exc:  # noqa
+                    return ["err", "reading-the-result-raised-" + type(exc).__name__]
+                return out if r is e else out + [["followup", "the-editing-method-returned-another-object-than-its-receiver"]]
             elif op[0] == "split_at":
                 ign = op[1] in ("1", "true")
                 parts = e.split_at(*[T(x) for x in op[2:]], ignore_invalid_split_point=ign)
@@ -748,7 +805,12 @@ def run(case):
                 raise ValueError(op)
         except Exception as exc:  # noqa
             return err(exc)
-        out = ["ok", snap(r), ["grid"] + op_grid(build(case[1]), r, op)]
+        try:
+            out = ["ok", snap(r), ["grid"] + op_grid(build(case[1]), r, op)]
+        except ZeroDivisionError:
+            raise
+        except Exception as exc:  # noqa: the edit returned, but the envelope it left behind cannot be read
+            return ["err", "reading-the-result-raised-" + type(exc).__name__]
         if r is not e:
             return out + [["followup", "the-editing-method-returned-another-object-than-its-receiver"]]
         return out + followup(r)
